@@ -100,15 +100,18 @@ def run_case(case: dict) -> dict:
                     c.unacked.clear()
                     await c.pump(io)
             await c.pump(io)
+            await io.sleep(2.0)
+            await c.pump(io)
+            return {"summary": c.summary(), "sid": sid}
         res = R.RUNNERS[case["worker"]]({}, "h2", client, [script], tail=20)
-        c = box["c"]
-        c.receive(res["out"][len(res["out"]):])
-        st = c.summary()["streams"].get(str(box.get("sid")), {})
+        cr = res.get("client_result") or {"summary": {"streams": {}, "error": "client did not finish"}, "sid": None}
+        st = cr["summary"]["streams"].get(str(cr["sid"]), {})
+        c_error = cr["summary"]["error"]
         heads = st.get("headers")
         view = {"status": None if heads is None else int(dict(heads)[":status"]),
                 "headers": None if heads is None else [h for h in heads if h[0] != ":status"],
                 "body": st.get("data", ""), "complete": bool(st.get("ended")), "reset": st.get("reset"), "trailers": st.get("trailers"),
-                "error": c.error, "frames": st.get("frames", [])}
+                "error": c_error, "frames": st.get("frames", [])}
     else:
         async def client(io):
             if case["pace"] == "paused":
